@@ -93,9 +93,10 @@ Lemma s_l_index : forall sel l,
   /\ l_comp (l_index sel l) = (if m_getitem_indexes_cache then map (fun p => (fst p, takeN dv sel (snd p))) (l_comp l) else l_comp l).
 Proof. intros. repeat split. Qed.
 Lemma s_at : forall cc F hdr l i sel,
+  f_ragged F = false ->
   resolve (length (l_buf l)) (ITake [i]) = Some sel ->
   snd (m_step cc F hdr [TLazy l] (OAt 0 i)) = XRow (nth (Z.to_nat m_getitem_scalar_row) (l_rows F (l_index sel l)) []).
-Proof. intros. cbn [m_step nth_error t_len]. rewrite H. reflexivity. Qed.
+Proof. intros cc F hdr l i sel HR H. cbn [m_step nth_error t_len]. rewrite H, HR. reflexivity. Qed.
 (* __replace__: the new column lands in the overlay and wins over an older one, other overlay columns stay, the cache goes *)
 Lemma s_l_replace : forall f vals l,
   l_buf (l_replace f vals l) = l_buf l
